@@ -212,6 +212,9 @@ func (historyEngine) Gen(r *Rand, tier string) any {
 				}
 				forms = append(forms, g.Probe(g.E(r.Range(2, 4))))
 			}
+			if r.Chance(1, 6) {
+				forms = append(forms, cbCountForm(r))
+			}
 			if c.Knobs.MaxTail > 0 && r.Chance(1, 2) {
 				// a tail loop that uses most of the (history-wide) tail-iteration allowance
 				name := fmt.Sprintf("tt%d", i)
@@ -292,6 +295,42 @@ func (historyEngine) Gen(r *Rand, tier string) any {
 		c.Ops = append(c.Ops, op)
 	}
 	return c
+}
+
+// cbCountForm: a builtin that calls back into lisp is given a callback that
+// counts its own invocations and raises an error at the k-th.  The failed
+// evaluation stops at the point of failure: whatever the builtin was in the
+// middle of, it may not call the callback again (the count, reported by the
+// probe, stays at most k).
+func cbCountForm(r *Rand) *Node {
+	k := r.Range(1, 4)
+	cnt := "(set 'cbn (+ cbn 1))"
+	stop := fmt.Sprintf("(if (= cbn %d) (error 'cb-stop cbn)", k)
+	xs := PickStr(r, []string{"(list 5 3 9 1 7 2 8 4 6)", "(vector 4 8 1 9 2 7)", "'(1 2 3 4 5 6 7 8 9 10 11 12 13 14 15 16)", "(list 2 1)"})
+	var call string
+	switch r.Intn(10) {
+	case 0:
+		call = fmt.Sprintf("(stable-sort (lambda (a b) %s %s (< a b))) %s)", cnt, stop, xs)
+	case 1:
+		call = fmt.Sprintf("(insert-sorted 'list %s (lambda (a b) %s %s (< a b))) %d)", xs, cnt, stop, r.Range(0, 17))
+	case 2:
+		call = fmt.Sprintf("(search-sorted %d (lambda (i) %s %s (> i %d))))", r.Range(1, 40), cnt, stop, r.Range(0, 40))
+	case 3:
+		call = fmt.Sprintf("(map '%s (lambda (a) %s %s a)) %s)", PickStr(r, []string{"list", "vector"}), cnt, stop, xs)
+	case 4:
+		call = fmt.Sprintf("(foldl (lambda (acc a) %s %s (+ acc a))) 0 %s)", cnt, stop, xs)
+	case 5:
+		call = fmt.Sprintf("(foldr (lambda (a acc) %s %s (+ acc a))) 0 %s)", cnt, stop, xs)
+	case 6:
+		call = fmt.Sprintf("(%s 'list (lambda (a) %s %s (> a 3))) %s)", PickStr(r, []string{"select", "reject"}), cnt, stop, xs)
+	case 7:
+		call = fmt.Sprintf("(%s (lambda (a) %s %s %s)) %s)", PickStr(r, []string{"all?", "any?"}), cnt, stop, PickStr(r, []string{"true", "false", "(> a 3)"}), xs)
+	case 8:
+		call = fmt.Sprintf("(stable-sort < %s (lambda (a) %s %s a)))", xs, cnt, stop)
+	default:
+		call = fmt.Sprintf("(insert-sorted 'vector %s < %d (lambda (a) %s %s a)))", xs, r.Range(0, 17), cnt, stop)
+	}
+	return A(fmt.Sprintf("(progn (set 'cbn 0) (ignore-errors %s) (sim:probe 'cbcount %d cbn))", call, k))
 }
 
 func histFaultsFrom(r *Rand, n int, avail []int) []FaultSpec {
@@ -697,6 +736,21 @@ func (historyEngine) Run(ci any, st *Stats) *Violation {
 
 		fail := func(oracle, format string, a ...any) *Violation {
 			return Violf(oracle, "after op %d (%s): %s", i, op.Entry, fmt.Sprintf(format, a...))
+		}
+		for _, ev := range evs {
+			if ev.Tag != "cbcount" {
+				continue
+			}
+			var k, n int
+			if _, err := fmt.Sscanf(ev.Args, "%d %d", &k, &n); err == nil {
+				st.Inc("reach_counting_callback_checked")
+				if n > k {
+					return fail("callback-after-failure", "a callback raised an error at its call %d, yet the builtin went on calling it (%d calls in all)", k, n)
+				}
+				if n == k {
+					st.Inc("fault_callback_failed_mid_builtin")
+				}
+			}
 		}
 		// invariants after the entry point returned
 		if out.GoPanic != "" && op.Entry != "FunCallHostPanic" {
